@@ -92,6 +92,12 @@ def verdict (_p : Profile) (S : Layout) (op : String) (a : List String) (ans : S
         else none
       | "t_log2", none | "t_ln", none =>
         if isErr && x > 0 && decide (inRange D (divSpec D.f (2 ^ D.f) (x * 2 ^ (D.f - S.f)))) then some "unexpected Err" else none
+      | "t_exp", some r =>
+        -- C12 "results that do not fit yield Err": e^x > 2^(integer bits) whenever x > (integer bits) · ln 2 (ln 2 < 0.6931472); and e^x is positive
+        let ib : Int := (D.n : Int) - D.f - (if D.signed then 1 else 0)
+        if r < 0 then some "exp negative"
+        else if x * 10000000 > ib * 6931472 * 2 ^ S.f then some "Ok for a result that does not fit"
+        else none
       | "t_pow", some r =>
         match a with
         | [_, _, _, _, y] =>
